@@ -144,9 +144,14 @@ def run_perm(rec, order):
     return m
 
 
-def rel(a, b):
+def rel(a, b, floor=None):
+    """largest relative difference; `floor` (same shape) is a lower bound of the scale: a quantity that has decayed far below its own
+    historical maximum (e.g. the history-integrated solute content of a dissolved phase, a difference of two equal numbers) carries the
+    ABSOLUTE round-off of that maximum"""
     a = np.asarray(a, dtype=float); b = np.asarray(b, dtype=float)
     s = np.maximum(np.abs(a), np.abs(b))
+    if floor is not None:
+        s = np.maximum(s, floor)
     with np.errstate(invalid='ignore', divide='ignore'):
         d = np.where(s > 0, np.abs(a - b) / s, 0.0)
     return float(np.max(d)) if d.size else 0.0
@@ -161,6 +166,7 @@ def compare_phase_runs(base_order, mb, order, mo, F, cnt):
     n = min(nb, no)
     prev = 0.0
     worst = 0.0
+    runmax = {}
     for k in range(n + 1):
         d = rel(mb.pData.time[k], mo.pData.time[k])
         field = 'time'
@@ -173,7 +179,9 @@ def compare_phase_runs(base_order, mb, order, mo, F, cnt):
             if dd > d:
                 d, field = dd, name
         for name in ('fconc', 'xEqAlpha', 'xEqBeta'):
-            dd = rel(getattr(mb.pData, name)[k], np.asarray(getattr(mo.pData, name)[k])[idx])
+            av = np.asarray(getattr(mb.pData, name)[k], dtype=float)
+            runmax[name] = np.maximum(runmax.get(name, 0.0), np.abs(av))
+            dd = rel(av, np.asarray(getattr(mo.pData, name)[k])[idx], floor=(1e-4 * runmax[name] if name == 'fconc' else None))
             if dd > d:
                 d, field = dd, name
         cnt['compared_steps'] += 1
